@@ -25,7 +25,8 @@ TEN_MIN, SIX_H = 600 * NS, 21600 * NS      # nanoseconds, like the model
 GO_PKG = "pkg/station/lib"
 GO_FILES = {"zz_verif_driver_test.go": "c08/registry_driver_test.go",
             "zz_verif_clock_fake_test.go": "c08/clock_fake_test.go",
-            "zz_verif_clock_real_test.go": "c08/clock_real_test.go"}
+            "zz_verif_clock_real_test.go": "c08/clock_real_test.go",
+            "zz_verif_bulk_driver_test.go": "c08/bulk_driver_test.go"}
 
 
 def adv_ns(o):
@@ -783,6 +784,126 @@ def run_sweeper(ctx):
     ctx.cov["sweeper_loop"] = "executed: `%s...` cut from main.go, %d clock scripts" % (stmt[:40].replace("\n", " "), len(scripts))
 
 
+# ----------------------------------------------------------------------------- the bulk lane (scale)
+# A population far above any plausible per-sweep batch is tracked and validated through the real RegistrationManager on the
+# fake clock, a few registrations carry a connection, time passes, a young batch is added, time passes, ONE sweep runs.
+# Oracle, in the property's words: after the sweep nothing older than its lifetime is tracked / matches / holds a timeout
+# record, and everything within its lifetime is still there.
+BULK_HEADER = ("From CJ Require Import Common.Base C08.Model C08.Capped.\n")
+BULK_COQ_MAX = 2600      # the assoc-list model is quadratic: 1000 registrations 0.9 s, 3000 6 s, 9000 about a minute
+
+
+def bulk_cases(ctx):
+    rng = ctx.rng
+    S = NS
+    cs = []
+
+    def mk(kind, n, nph, used, adv1, young, adv2):
+        cs.append({"kind": kind, "n": n, "nph": nph, "used": sorted(set(used)), "adv1": adv1, "young": young, "adv2": adv2})
+    # 20 000 registrations, 3 used, 11 minutes old at the sweep; 7 young ones exactly 10 minutes old (kept: > comparison)
+    mk("bulk/large-one-sweep", 20000, 64, [5, 9000, 19999], 60 * S, 7, 600 * S)
+    mk("bulk/medium-one-sweep", 1000, 16, [0, 999], 61 * S, 3, 600 * S - 1)
+    mk("bulk/medium-one-sweep", 5000, 32, [17, 4000], 0, 0, 660 * S)
+    mk("bulk/medium-one-sweep", 9000, 64, [1, 2, 8999], 5 * 3600 * S + 50 * 60 * S, 3000, 9 * 60 * S)
+    # the 6-hour arm at scale: 5000 registrations, 2400 of them used, all older than 6 h at the sweep
+    mk("bulk/six-hour-arm", 5000, 32, list(range(0, 4800, 2)), 0, 0, 6 * 3600 * S + 1)
+    # everything within its lifetime: one sweep removes nothing
+    mk("bulk/nothing-expired", 3000, 8, [4], 0, 10, 600 * S)
+    for _ in range(2 if ctx.tier == "quick" else 8):
+        n = rng.randint(300, 2400)
+        used = [rng.randrange(n) for _ in range(rng.randint(0, 6))]
+        young = rng.randint(0, 100)
+        old = rng.choice([601 * S, 660 * S, 600 * S + 1, 6 * 3600 * S, 6 * 3600 * S + 1])
+        adv2 = rng.choice([0, 1, 599 * S, 600 * S])
+        mk("bulk/random", n, rng.choice([1, 2, 16, 64]), used, max(0, old - adv2), young, adv2)
+    for _ in range(0 if ctx.tier == "quick" else 3):
+        n = rng.randint(10000, 40000)
+        mk("bulk/random-large", n, 64, [rng.randrange(n) for _ in range(4)], 30 * S, rng.randint(0, 50), 600 * S)
+    return cs
+
+
+def bulk_expected(c):
+    age_old, age_young = c["adv1"] + c["adv2"], c["adv2"]
+    want = set()
+    if age_old <= TEN_MIN:
+        want |= set(range(c["n"]))
+    if age_old <= SIX_H:
+        want |= set(c["used"])
+    if age_young <= TEN_MIN:
+        want |= set(range(c["n"], c["n"] + c["young"]))
+    return want
+
+
+def run_bulk(ctx):
+    if ctx.replay is not None:
+        return
+    cases = bulk_cases(ctx)
+    rc, out, res = go_run(ctx, ".", GO_PKG, GO_FILES, "^TestVerifC08Bulk$", [{k: v for k, v in c.items() if k != "kind"} for c in cases],
+                          "fake", 600)
+    if res is None or len(res) != len(cases):
+        if "faketime" in out and "not in effect" in out or "checklinkname" in out:
+            ctx.cov["bulk_lane"] = "not executed (no fake clock): " + out[-200:]
+            return
+        ctx.broken("driver", "bulk lane: the Go driver did not produce results (rc=%s): %s" % (rc, out[-900:]))
+        return
+    terms, kept = [], []
+    for c, r in zip(cases, res):
+        n, tot = c["n"], c["n"] + c["young"]
+        inp = {k: v for k, v in c.items() if k != "kind"}
+        if len(inp["used"]) > 12:
+            inp["used"] = inp["used"][:12] + ["... %d in all" % len(c["used"])]
+        ctx.count(("bulk", repr(c)), kind=c["kind"])
+        if r["panic"]:
+            ctx.fail("panic:bulk", "bulk lane: the registry panicked on a population of %d" % tot, {"bulk": inp})
+            continue
+        if r["before"] != [tot, tot, tot]:
+            ctx.broken("driver", "bulk lane: before the sweep the manager tracks / holds timeout records for / matches %s of %d "
+                       "distinct registrations" % (r["before"], tot), {"bulk": inp})
+            continue
+        want = bulk_expected(c)
+        obs = {"tracked": set(r["tracked"]), "matching": set(r["matching"]), "holding a timeout record": set(r["has_timeout"])}
+        late = {w: sorted(v - want) for w, v in obs.items() if v - want}
+        early = {w: sorted(want - v) for w, v in obs.items() if want - v}
+        sweep_at = c["adv1"] + c["adv2"]
+        if late:
+            ctx.fail("kept-past-lifetime:bulk/N=%d" % n,
+                     "bulk lane: %d registrations tracked at 0 ns (%d of them used), %d more at %d ns, ONE sweep at %d ns: after the "
+                     "sweep %s registrations older than their lifetime are still %s (%d survivors, %d timeout records; %d "
+                     "registrations are within their lifetime); first offenders: %s"
+                     % (n, len(c["used"]), c["young"], c["adv1"], sweep_at,
+                        ", ".join("%d" % len(v) for v in late.values()), " / ".join(late.keys()), r["total"], r["ntimeouts"], len(want),
+                        {w: v[:6] for w, v in late.items()}),
+                     {"bulk": inp, "sweep_at_ns": sweep_at, "survivors": r["total"], "timeout_records": r["ntimeouts"],
+                      "expected_survivors": len(want)})
+        if early:
+            ctx.fail("expired-early:bulk/N=%d" % n,
+                     "bulk lane: %d registrations tracked at 0 ns (%d used), %d more at %d ns, one sweep at %d ns: registrations within "
+                     "their lifetime are no longer %s after the sweep; first: %s"
+                     % (n, len(c["used"]), c["young"], c["adv1"], sweep_at, " / ".join(early.keys()), {w: v[:6] for w, v in early.items()}),
+                     {"bulk": inp, "sweep_at_ns": sweep_at, "survivors": r["total"], "expected_survivors": len(want)})
+        if not late and not early and (r["total"] != len(want) or r["ntimeouts"] != len(want)):
+            ctx.fail("residue:bulk/N=%d" % n, "bulk lane: after the sweep TotalRegistrations = %d and %d timeout records, %d "
+                     "registrations are within their lifetime" % (r["total"], r["ntimeouts"], len(want)), {"bulk": inp})
+        if tot <= BULK_COQ_MAX:
+            nl = lambda xs: "(@nil N)" if not xs else "[" + "; ".join("%d%%N" % x for x in xs) + "]"
+            terms.append("(%d%%N, %d%%nat, %s, %d%%N, %d%%nat, %d%%N, (%s, (%d%%nat, %d%%nat)))"
+                         % (c["nph"], n, nl(c["used"]), c["adv1"], c["young"], c["adv2"], nl(r["tracked"]), r["total"], r["ntimeouts"]))
+            kept.append((c, r))
+    ctx.require_kinds(["bulk/large-one-sweep", "bulk/medium-one-sweep", "bulk/six-hour-arm", "bulk/nothing-expired", "bulk/random"])
+    ctx.cov["bulk_lane"] = ("%d populations (%s registrations) through the real manager, one sweep each; %d of them (<= %d "
+                            "registrations) also evaluated by the model (C08.Capped.bulk_chk)"
+                            % (len(cases), ", ".join(str(c["n"] + c["young"]) for c in cases), len(terms), BULK_COQ_MAX))
+    if terms:
+        mm = ctx.coq_mismatches("bulk", BULK_HEADER, terms, "bulk_chk", shard=1, need_vo=["C08/Capped.vo"])
+        if mm:
+            ctx.cov["mismatches"] += len(mm)
+            c, r = kept[mm[0]]
+            ctx.broken("correspondence", "bulk lane: the survivors of one sweep over %d registrations differ between the real "
+                       "RegisteredDecoys and the model (C08.Capped.bulk_after sweep)" % (c["n"] + c["young"]),
+                       {"bulk": {k: v for k, v in c.items() if k != "kind"}, "survivors": r["total"]})
+
+
+
 # ----------------------------------------------------------------------------- the connection lane
 # `connect` events that come from the real handleNewTCPConn (cmd/application/conns.go): a TCP peer with the real
 # client transport's first flight, a covert echo server, tunnels that stay OPEN across clock steps and sweeps.
@@ -1057,11 +1178,16 @@ def run(ctx):
     if only == "conn":
         run_conn(ctx)
         return
+    if only == "bulk":
+        run_bulk(ctx)
+        return
     tick("examples")
     wiring(ctx)
     tick("wiring+mark-sites")
     run_sweeper(ctx)
     tick("sweeper-loop")
+    run_bulk(ctx)
+    tick("bulk-lane")
     run_conn(ctx)
     tick("connection-lane")
     cases, n_fixed, n_exh = gen_cases(ctx)
